@@ -65,7 +65,7 @@ def gap_Y(run, cfgs, rotors, n_samples, big_m=False):
                 r = abs(direct) / ((lw + 1) * EPS)
                 worst_sum = max(worst_sum, r)
                 run.gap_case("addition-theorem", (L, P, s, R), lab, {"ell_max": L, "s": s, "R": list(R), "worst_ell": lw, "rel_over_(ell+1)eps": round(r, 3)})
-                if r > K_SUM:
+                if not (r <= K_SUM):
                     run.violation("addition-theorem-fails", "Wigner.sYlm", {**inp, "ell": lw}, "sum_m |Y|^2 = (2l+1)/4pi", f"relative deviation {direct}")
                 # oracle samples
                 ells_s = sorted(set([abs(s), min(L, abs(s) + 1), L // 2, L]) | {rng.randint(abs(s), L) for _ in range(2)}) if L >= abs(s) else []
@@ -85,7 +85,7 @@ def gap_Y(run, cfgs, rotors, n_samples, big_m=False):
                         k += 1
                         run.gap_case("sYlm-vs-definition", (L, P, s, R, ell, m), f"{lab}|ell>=512" if ell >= 512 else lab,
                                      {"ell_max": L, "mp_max": P, "s": s, "R": list(R), "ell": ell, "m": m, "err_over_(ell+1)eps": round(rel_e, 3)})
-                        if rel_e > K_BOUND:
+                        if not (rel_e <= K_BOUND):
                             run.violation("sYlm-differs-from-definition", "Wigner.sYlm", {**inp, "ell": ell, "m": m}, str(oracle.to_complex(ex)), str(complex(got)),
                                           detail={"err_over_(ell+1)eps": rel_e, "stratum": lab})
                             break
